@@ -132,6 +132,16 @@ def run(ctx):
             seq.append(rng.choice([["getattr", a], ["setattr", a, rng.choice(["v", ""])], ["delattr", a], ["getkey", k], ["setkey", k, rng.choice(["w", ""])],
                                    ["delkey", k], ["contains", k], ["items"], ["pop", k], ["update", k, "u"]]))
         histories.append((kind, cls, "blank-random", "blankobj", seq))
+    # re-insertion histories: every known property of a blank simfile is deleted and set again (it then comes last in the
+    # mapping, and serialization follows the mapping's order), also an unrelated key that another format knows
+    for kind, cls, attr, K, A in targets():
+        if not kind.endswith("Simfile") or attr != "bgchanges": continue
+        table = attr_table(cls)
+        for a, (Kk, Aa) in table.items():
+            histories.append((kind, cls, "blank-reinsert", "blankobj", [["delattr", a], ["setattr", a, "x"], ["items"]]))
+            histories.append((kind, cls, "blank-reinsert", "blankobj", [["pop", Kk], ["setkey", Kk, "y"], ["items"]]))
+        for foreign in ("VERSION", "FOO", "NOTEDATA2"):
+            histories.append((kind, cls, "blank-reinsert", "blankobj", [["setkey", foreign, "0.83"], ["items"]]))
     reqs, metas = [], []
     for kind, cls, iname, init, seq in histories:
         if init == "blankobj":
@@ -170,6 +180,19 @@ def run(ctx):
                 obj.charts = []
             if not (obj == other) or str(obj) != str(other):
                 res.violation(case, "equality / serialization do not see exactly the mapping's content"); continue
+        if kind.endswith("Simfile") and all(k == k.upper() and k.strip() == k for k, _ in final) and all(isinstance(v, str) for _, v in final):
+            # serialization sees exactly the mapping's content, in the mapping's order: the text parses back to the same item list
+            try:
+                obj.charts
+            except AttributeError:
+                obj.charts = []
+            try:
+                back = [[k, v] for k, v in cls(string=str(obj)).items()]
+            except Exception as e:
+                back = core.exc_name(e)
+            res.count("serialization_order_checked")
+            if back != final:
+                res.violation(case, "the serialization does not parse back to the mapping's items in the mapping's order", impl=str(back)[:300], expected=str(final)[:300]); continue
         reqs.append({"op": "views.run", "kind": kind, "d": start, "ops": seq}); metas.append((case, outs, final))
     resp = ctx.lean.eval_sharded(reqs, shards=16)
     for (case, outs, final), m in zip(metas, resp):
